@@ -427,6 +427,7 @@ func drawEval(rt *rapid.T) (mainText string, files map[string]string, events []E
 		fmt.Fprintf(&sb, "import %q as top\n", lib())
 	}
 	sb.WriteString("func g(x) {\n    return {\"v\" : x + 1}\n}\n")
+	sb.WriteString("sink tick\n    kindmatch [\"c13.tick\"]\n{\n}\n") // see evalEnv.post
 
 	nsinks := g.n("nsinks", 1, 4)
 	for s := 0; s < nsinks; s++ {
